@@ -195,8 +195,81 @@ Open Scope string_scope.
     | _ => bad_case
     end.
 
-Definition table_C02 : table :=
+(* every entry that judges one call (or one fixed composite of calls) on its own *)
+Definition table_C02_base : table :=
   [("GetPointOnExtendedSpatialId", fun o => d_point_on_id o false); ("GetPointOnSpatialId", fun o => d_point_on_id o true);
    ("CentreRoundTrip", d_roundtrip); ("SharedFaces", d_shared);
    ("VertexHook", fun o => d_vertex_hook o false); ("CentreHook", fun o => d_vertex_hook o true);
    ("AltHook", fun _ => d_alt_hook); ("AttrsHook", fun _ => d_attrs_hook)].
+
+  (* ---- histories. PointSequence: [steps], step = [function name; its arguments; mutate?]. The harness performs the steps back to back in one
+     process; after a step with mutate? = true it scribbles on everything that call returned (and on the point objects it passed in); at the end it
+     reads the results of the other steps once more. Observed: one [answer; answer read again at the end | Nil] per step.
+     The model is a pure function of a step's own arguments (VertexProofs.history_independent), so every step is judged exactly like the
+     standalone call, whatever came before; in addition an answer handed to the caller must not change afterwards (second reading = first). ---- *)
+  Fixpoint c02_val_eqb (a b : val) {struct a} : bool :=
+    match a, b with
+    | VZ x, VZ y => (x =? y)%Z
+    | VS x, VS y => String.eqb x y
+    | VF x, VF y => feqb_bits x y
+    | VB x, VB y => Bool.eqb x y
+    | VL x, VL y => (fix go (l : list val) (m : list val) {struct l} : bool :=
+                       match l, m with
+                       | [], [] => true
+                       | u :: l', w :: m' => c02_val_eqb u w && go l' m'
+                       | _, _ => false
+                       end) x y
+    | VE x, VE y => c02_val_eqb x y
+    | VNil, VNil => true
+    | VPanic, VPanic => true
+    | VTimeout, VTimeout => true
+    | _, _ => false
+    end.
+  Definition c02_step (oracle : oracle_t) (step out : val) : verdict :=
+    match step, out with
+    | VL [VS fn; VL args; VB _], VL [o; again] =>
+        let v := run_table table_C02_base oracle fn args o in
+        let stable := match again with VNil => true | _ => c02_val_eqb again o end in
+        mkv (v_corr v && stable) (v_prop v && stable) (v_class v) (VL [v_model v; VNil])
+    | _, _ => bad_case
+    end.
+  Fixpoint c02_steps (oracle : oracle_t) (steps outs : list val) : option (list verdict) :=
+    match steps, outs with
+    | [], [] => Some []
+    | s :: steps', o :: outs' =>
+        match c02_steps oracle steps' outs' with
+        | Some r => Some (c02_step oracle s o :: r)
+        | None => None
+        end
+    | _, _ => None
+    end.
+  (* each step's verdict is a function of that step and of its own observed answer only: position n of the result is the standalone verdict *)
+  Lemma c02_steps_stepwise oracle steps outs vs : c02_steps oracle steps outs = Some vs ->
+    forall n s o, nth_error steps n = Some s -> nth_error outs n = Some o -> nth_error vs n = Some (c02_step oracle s o).
+  Proof.
+    revert outs vs. induction steps as [|s0 steps IH]; intros [|o0 outs] vs H n s o Hs Ho; try (destruct n; discriminate).
+    cbn in H. destruct (c02_steps oracle steps outs) as [r|] eqn:E; [|discriminate]. injection H as <-.
+    destruct n as [|n]; cbn in *.
+    - injection Hs as <-. injection Ho as <-. reflexivity.
+    - eapply IH; eauto.
+  Qed.
+
+  (* every sequence starts with this fixed, unrelated call: it puts one-entry caches of the library into a known state, so that a shrunk or
+     replayed sequence behaves in a fresh process as it did in the process that found it; a sequence without it is refused (the shrinker cannot drop it) *)
+  Definition c02_priming : val := VL [VS "GetPointOnExtendedSpatialId"; VL [VS "5/3/7/4/-2"; VZ 0]; VB false].
+  Definition d_sequence (oracle : oracle_t) (args : list val) (obs : val) : verdict :=
+    match args, obs with
+    | [VL steps], VL outs =>
+        if negb (match steps with first :: _ => c02_val_eqb first c02_priming | [] => false end) then bad_case else
+        match c02_steps oracle steps outs with
+        | Some vs =>
+            match find (fun v => negb (String.eqb (v_class v) "-")) vs with
+            | Some v => mkv false false (v_class v) VNil          (* a step outside its entry's domain: the whole case is refused, never a pass *)
+            | None => mkv (forallb v_corr vs) (forallb v_prop vs) "-" (VL (map v_model vs))
+            end
+        | None => bad_case
+        end
+    | _, _ => bad_case
+    end.
+
+Definition table_C02 : table := (table_C02_base ++ [("PointSequence", d_sequence)])%list.
